@@ -76,8 +76,7 @@ def main(pid, argv):
                 bad = "the connection is not usable afterwards with a live context: " + f["follow"]
             if bad:
                 nf += 1
-                if nf <= 3:
-                    ck.fail("ctxio-scenario", sc, bad, impl=il, model=ml)
+                ck.fail("ctxio-scenario", sc, bad, impl=il, model=ml)
             elif f["class"] not in allowed:
                 ck.tie_broken("outcome class not among the model's outcomes", sc, il, ml)
     ck.extra["failing_inputs_total"] = nf
